@@ -342,6 +342,32 @@ def diagram (o : Opts) (m : Mach) (st : Styles) (roi : Option (List Path)) : Dia
 def diagramObj (o : Opts) (m : Mach) (init : Obj) (h : List ObjStep) (roi : Option Obj) : Diagram :=
   diagram o m (stylesAfterObj o init h) (roi.map (readState o.modelAttr))
 
+/-! ### a session: what the machine and a model's graph go through between diagram reads -/
+
+/-- display options (`show_conditions`, `show_state_attributes`; `auto_transitions_markup` acts through the
+description: which transitions are listed) and the machine description may change between two reads of
+the diagram; the graph object only keeps styles -/
+inductive Event
+  | graph (s : ObjStep)        -- a graph event of this model
+  | options (o : Opts)         -- an option attribute is set on the machine
+  | machine (m : Mach)         -- add_states / add_transition / remove_transition / callbacks added / auto flag
+  deriving Repr, Inhabited
+
+structure Session where
+  opts : Opts
+  mach : Mach
+  styles : Styles
+  deriving Repr, Inhabited
+
+def Session.apply (s : Session) : Event → Session
+  | .graph g => { s with styles := applyStep s.styles (g.resolve s.opts.modelAttr) }
+  | .options o => { s with opts := o }
+  | .machine m => { s with mach := m }
+
+/-- `model.get_graph(show_roi=…)` at this point of the session: computed from what the machine is NOW -/
+def Session.view (s : Session) (roi : Option Obj) : Diagram :=
+  diagram s.opts s.mach s.styles (roi.map (readState s.opts.modelAttr))
+
 /-! ### observations on diagrams (used by the property statements) -/
 
 mutual
